@@ -105,6 +105,7 @@ type Event struct {
 	Arg            int64
 	Body           []byte `json:",omitempty"`
 	Cut            int    `json:",omitempty"` // cut:<kind>: number of 4-byte words kept
+	Split          int    `json:",omitempty"` // > 0: the frame reaches the client in two TCP segments, cut after that many bytes (mod length)
 }
 
 func build(s scen.Source, events []Event) *scen.Scenario {
@@ -140,7 +141,7 @@ func build(s scen.Source, events []Event) *scen.Scenario {
 		case "result-again":
 			steps = append(steps, scen.Step{Op: "answer", Container: ev.InContainer, Items: []scen.AnsItem{{Tag: 7, Again: true, Gzip: ev.Gzip}}})
 		default:
-			p := &scen.PushSpec{Kind: ev.Kind, Gzip: ev.Gzip, InContainer: ev.InContainer, ContentRelated: ev.ContentRelated, Arg: ev.Arg, Body: ev.Body}
+			p := &scen.PushSpec{Kind: ev.Kind, Gzip: ev.Gzip, InContainer: ev.InContainer, ContentRelated: ev.ContentRelated, Arg: ev.Arg, Body: ev.Body, Split: ev.Split}
 			if strings.HasPrefix(ev.Kind, "cut:") {
 				// a well-formed message of that kind cut short at a word boundary
 				whole := scen.PushBody(&scen.PushSpec{Kind: strings.TrimPrefix(ev.Kind, "cut:"), Arg: ev.Arg})
@@ -148,7 +149,7 @@ func build(s scen.Source, events []Event) *scen.Scenario {
 				if n > len(whole) {
 					n = len(whole) / 4 * 4
 				}
-				p = &scen.PushSpec{Kind: "raw", Body: whole[:n], InContainer: ev.InContainer, ContentRelated: ev.ContentRelated}
+				p = &scen.PushSpec{Kind: "raw", Body: whole[:n], InContainer: ev.InContainer, ContentRelated: ev.ContentRelated, Split: ev.Split}
 			}
 			switch ev.Kind {
 			case "schema-object":
@@ -257,6 +258,9 @@ func genEvents(t *rapid.T) []Event {
 		ev.Gzip = rapid.IntRange(0, 4).Draw(t, "gzip") == 0
 		ev.InContainer = rapid.IntRange(0, 3).Draw(t, "container") == 0
 		ev.ContentRelated = rapid.Bool().Draw(t, "content")
+		if rapid.IntRange(0, 3).Draw(t, "split") == 0 {
+			ev.Split = rapid.IntRange(1, 400).Draw(t, "splitat")
+		}
 		if ev.Kind == "schema-object" {
 			var d *tlx.Def
 			if rapid.Bool().Draw(t, "mtproto-def") {
@@ -304,6 +308,9 @@ func evaluate(sc *scen.Scenario, events []Event) error {
 		}
 		if ev.InContainer {
 			cls = append(cls, "event-in-container")
+		}
+		if ev.Split > 0 {
+			cls = append(cls, "event-frame-in-two-tcp-segments")
 		}
 		if wellFormedService[ev.Kind] {
 			cls = append(cls, "well-formed-service-traffic")
@@ -359,7 +366,7 @@ func TestC16(t *testing.T) {
 				continue
 			}
 			seenKind[k] = true
-			for _, variant := range []Event{{}, {Gzip: true}, {InContainer: true}, {ContentRelated: true}} {
+			for _, variant := range []Event{{}, {Gzip: true}, {InContainer: true}, {ContentRelated: true}, {Split: 3}, {Split: 37}} {
 				idx++
 				if idx%nsh != run.Shard {
 					continue
@@ -389,7 +396,7 @@ func TestC16(t *testing.T) {
 				}
 			}
 		}
-		run.Exhaustive("every event kind alone x {plain, gzip, in container, content-related} (this shard's share)", n)
+		run.Exhaustive("every event kind alone x {plain, gzip, in container, content-related, frame split inside its length prefix, frame split inside its body} (this shard's share)", n)
 	})
 	if t.Failed() {
 		return
